@@ -87,10 +87,16 @@ def check_item(ctx, m, g):
             # all fields accounted for
             given = set(f)
             if recv == "SubMsg":
-                if nf["rest"] != ["self"]:
-                    ctx.violation("C08.builder", key + ["rest"], where, "..self (every other field kept, in particular msg and gas_limit)", nf["rest"], STATEMENT, "ReplyData::emit_submsg_setter")
-                if given != {"reply_on", "id", "payload"}:
-                    ctx.violation("C08.builder", key + ["fields"], where, ["id", "payload", "reply_on"], sorted(given), STATEMENT, "ReplyData::emit_submsg_setter")
+                if nf["rest"] == ["self"]:
+                    if given != {"reply_on", "id", "payload"}:
+                        ctx.violation("C08.builder", key + ["fields"], where, ["id", "payload", "reply_on"], sorted(given), STATEMENT, "ReplyData::emit_submsg_setter")
+                else:
+                    # every field spelled out: msg and gas_limit must be the receiver's own
+                    if nf["rest"] is not None or given != set(fields):
+                        ctx.violation("C08.builder", key + ["rest"], where, "..self, or every field spelled out", {"rest": nf["rest"], "given": sorted(given)}, STATEMENT, "ReplyData::emit_submsg_setter")
+                    for keep in ("msg", "gas_limit"):
+                        if f.get(keep) != ("self-field", keep):
+                            ctx.violation("C08.builder", key + [keep], where, f"{keep} <- the receiver's own {keep}", f.get(keep), STATEMENT, "ReplyData::emit_submsg_setter")
             else:
                 if nf["rest"] is not None or given != set(fields):
                     ctx.violation("C08.builder", key + ["fields"], where, sorted(fields), sorted(given), STATEMENT, "ReplyData::emit_submsg_converter")
@@ -113,8 +119,9 @@ def check_item(ctx, m, g):
                 ctx.violation("C08.c-codec", key + ["params"], where, want_types, ptypes, STATEMENT)
             pnames = [n for n, _ in nf["params"]]
             enc = nf["payload"]
-            if enc is None or enc["names"] != pnames:
-                ctx.violation("C08.c-codec", key + ["encodes-params"], where, f"payload built from the parameters {pnames} in order", enc, STATEMENT, "PayloadFields::emit_payload_serialization")
+            if enc is None or enc["names"] != pnames or enc.get("provs") != [("param", n) for n in pnames]:
+                ctx.violation("C08.c-codec", key + ["encodes-params"], where, f"payload built from the PARAMETERS {pnames} in order (not from a shadowing binding)",
+                              {"names": enc and enc["names"], "provenance": enc and enc.get("provs")}, STATEMENT, "PayloadFields::emit_payload_serialization")
                 continue
             if raw != (enc["mode"] == "raw"):
                 ctx.violation("C08.c-codec", key + ["raw-marker"], where, "raw marker <=> payload passed through byte for byte", enc["mode"], STATEMENT)
